@@ -13,6 +13,7 @@ Interface to X12 Errors
 """
 
 import logging
+import re
 
 # Intrapackage imports
 from .errors import IterOutOfBounds  # , IterDone
@@ -287,6 +288,21 @@ class err_handler(object):
         @param err_str: Description of the error
         @type err_str: string
         """
+        pos = _refdes_position(refdes)
+        if pos is not None and self.cur_seg_node is not None:
+            if self.cur_seg_node.id == 'ISA':
+                parent = self.cur_isa_node
+            elif self.cur_seg_node.id == 'GS':
+                parent = self.cur_gs_node
+            elif self.cur_seg_node.id == 'ST':
+                parent = self.cur_st_node
+            else:
+                parent = self.cur_seg_node
+            cur = self.cur_ele_node
+            if cur is None or cur.parent is not parent or (cur.ele_pos, cur.subele_pos) != pos:
+                # The error is located by its reference designator, not by the element visited last
+                self.cur_ele_node = err_ele.at_position(parent, pos[0], pos[1])
+                self.ele_node_added = False
         self._add_cur_ele()
         self.cur_ele_node.add_error(
             err_cde, err_str, bad_value)  # , pos, data_ele)
@@ -931,6 +947,21 @@ class err_seg(err_node):
         #raise IterOutOfBounds
 
 
+def _refdes_position(refdes):
+    """
+    (element position, sub-element position or None) named by a reference designator:
+    an int, 'NN', 'NN-n' or either with a leading segment ID.  None if it names no position
+    """
+    if refdes is None:
+        return None
+    if isinstance(refdes, int):
+        return (refdes, None)
+    m = re.match(r'^(?:[A-Z][A-Z0-9]{1,2})?([0-9]{2})(?:-([0-9]+))?$', str(refdes))
+    if m is None:
+        return None
+    return (int(m.group(1)), int(m.group(2)) if m.group(2) is not None else None)
+
+
 class err_ele(err_node):
     """
     Element Errors - Holds and generates output for element and
@@ -958,6 +989,23 @@ class err_ele(err_node):
         self.parent = parent
         #self.children = []
         self.errors = []
+
+    @classmethod
+    def at_position(cls, parent, ele_pos, subele_pos=None):
+        """
+        Element error node for a position that has no map node (beyond the last element) or
+        that was not the element visited last
+        """
+        node = cls.__new__(cls)
+        node.ele_ref_num = None
+        node.name = None
+        node.ele_pos = ele_pos
+        node.subele_pos = subele_pos
+        node.repeat_pos = None
+        node.id = 'ELE'
+        node.parent = parent
+        node.errors = []
+        return node
 
     def accept(self, visitor):
         """
